@@ -592,6 +592,25 @@ func (q *Q) StoreClasses(rule, key, fieldKey string, allowed map[string]string) 
 			bad = append(bad, fmt.Sprintf("%s stores a %s value at %s", fn, map[string]string{"nil": "cleared", "set": "live"}[cls], q.p.InstrPos(a.In)))
 		}
 	}
+	// a whole-struct copy of the owner (`*c = *other`) writes every field at once, the
+	// per-request state included: it is outside every transition table
+	owner := fieldKey[:strings.LastIndex(fieldKey, ".")]
+	for _, fn := range q.p.Funcs {
+		EachInstr(fn, func(in ssa.Instruction) {
+			st, ok := in.(*ssa.Store)
+			if !ok {
+				return
+			}
+			n := namedOf(st.Val.Type())
+			if n == nil || TypeKey(n) != owner {
+				return
+			}
+			if _, isStruct := st.Val.Type().Underlying().(*types.Struct); !isStruct {
+				return
+			}
+			bad = append(bad, fmt.Sprintf("%s copies a whole %s (all of its state, %s included) at %s", q.p.FuncName(fn), owner, fieldKey[len(owner)+1:], q.p.InstrPos(in)))
+		})
+	}
 	sort.Strings(bad)
 	if len(bad) > 0 {
 		q.r.Bad(rule, key, "-", "state field "+fieldKey+" is written outside its transition table: "+strings.Join(bad, "; "))
@@ -677,4 +696,56 @@ func (q *Q) TokenReleased(rule, key string, f *F, field string) {
 	}
 	ok, where := q.mustPass(set[0].In, clr)
 	q.r.Check(ok, rule, key, set.Pos(q.p), field+" is cleared on every path from where it is set to a return", "a path from `"+field+" = true` reaches the return at "+where+" without clearing it: after that return (a receive timeout or close) every later call sees the flag still set and fails immediately instead of waiting")
+}
+
+// NilReturnsPass: every path from the entry of f to a return whose error result is nil
+// passes through one of the events of via.  ("Send returned nil" must mean "the frame was
+// written / queued": no shortcut returns success without doing the work.)
+func (q *Q) NilReturnsPass(rule, key string, f *F, via Sel, okmsg, badmsg string) {
+	if !f.OK() {
+		return
+	}
+	if len(via) == 0 {
+		q.r.Bad(rule, key, f.Pos(), "ANCHOR-MISSING: the operation this rule requires on every successful path was not found")
+		return
+	}
+	viaSet := map[ssa.Instruction]bool{}
+	for _, e := range via {
+		viaSet[e.In] = true
+	}
+	bad := ""
+	seen := map[*ssa.BasicBlock]bool{}
+	var walk func(b *ssa.BasicBlock)
+	walk = func(b *ssa.BasicBlock) {
+		if seen[b] || bad != "" {
+			return
+		}
+		seen[b] = true
+		for _, in := range b.Instrs {
+			if viaSet[in] {
+				return
+			}
+			if sel, ok := in.(*ssa.Select); ok {
+				for _, e := range via {
+					if e.In == sel {
+						// a select counts only on its own arm: handled by the arm test below
+					}
+				}
+			}
+			if ret, ok := in.(*ssa.Return); ok {
+				if len(ret.Results) > 0 {
+					ev := resolveSpill(ret.Results[len(ret.Results)-1], ret)
+					if Desc(ev) == "nil" {
+						bad = q.p.InstrPos(ret)
+					}
+				}
+				return
+			}
+		}
+		for _, s := range b.Succs {
+			walk(s)
+		}
+	}
+	walk(f.fn.Blocks[0])
+	q.r.Check(bad == "", rule, key, via.Pos(q.p), okmsg, badmsg+" (the return at "+bad+" is reachable without it)")
 }
